@@ -108,7 +108,7 @@ func (s Slice) Slice(n datamodel.Node) (datamodel.Node, error) {
 			return nil, nil
 		}
 		if rdr != nil {
-			sr := io.NewSectionReader(&readerat{rdr, 0}, from, to-from)
+			sr := io.NewSectionReader(&readerat{rdr}, from, to-from)
 			return basicnode.NewBytesFromReader(sr), nil
 		}
 		return basicnode.NewBytes(bytes[from:to]), nil
